@@ -92,6 +92,11 @@ def run_property(prop, tier, root, write=True):
                             % (cv['mutants'], cv['seeds']))
             print('%s thorough: checker validation on scratch copies: mutants %s; seeded changes %s' % (
                 prop, cv['mutants'], cv['seeds']))
+            from .selftest import historical_defects
+            hd = historical_defects(prop, root)
+            ctx.report.extra['historical_defects'] = hd
+            if hd:
+                print('%s thorough: defects repaired in petl, re-analysed on the tree before each fix: %s' % (prop, hd))
         except Exception as e:      # never let the validation harness decide the verdict
             ctx.report.note('checker validation skipped: %s' % e)
     seed = int(os.environ.get('VERIF_SEED', '0') or 0)
